@@ -121,6 +121,20 @@ fn observe(m: &RModule, pos: &str, name: &str, norm_rust: bool) -> String {
     }
 }
 
+/// the keyword table as the code has it now (for choosing inputs only; the model uses Gen/Keywords.v)
+pub fn table_keywords() -> Vec<String> {
+    let shared = std::fs::read_to_string(format!("{}/graphql_client_codegen/src/codegen/shared.rs", std::env::var("VERIF_REPO").unwrap_or_else(|_| "/repo".into()))).unwrap_or_default();
+    let mut kws = vec![];
+    if let Some(a) = shared.find("RUST_KEYWORDS") {
+        if let Some(b) = shared[a..].find("];") {
+            for part in shared[a..a + b].split('"').skip(1).step_by(2) {
+                kws.push(part.to_string());
+            }
+        }
+    }
+    kws
+}
+
 pub fn names(tier: &str, seed: u64, keywords: &[String]) -> Vec<String> {
     let mut out: Vec<String> = vec![];
     let mut base: Vec<String> = keywords.to_vec();
@@ -204,16 +218,7 @@ pub fn names(tier: &str, seed: u64, keywords: &[String]) -> Vec<String> {
 
 pub fn run(outdir: &Path, tier: &str, seed: u64, shards: usize, replay: Option<String>) {
     runner::quiet_panics();
-    // the table as the code has it now (for choosing names only; the model uses Gen/Keywords.v)
-    let shared = std::fs::read_to_string(format!("{}/graphql_client_codegen/src/codegen/shared.rs", std::env::var("VERIF_REPO").unwrap_or_else(|_| "/repo".into()))).unwrap_or_default();
-    let mut kws = vec![];
-    if let Some(a) = shared.find("RUST_KEYWORDS") {
-        if let Some(b) = shared[a..].find("];") {
-            for part in shared[a..a + b].split('"').skip(1).step_by(2) {
-                kws.push(part.to_string());
-            }
-        }
-    }
+    let kws = table_keywords();
     let mut todo: Vec<(String, bool)> = vec![];
     if let Some(rp) = replay {
         let v: serde_json::Value = serde_json::from_str(&std::fs::read_to_string(rp).unwrap()).unwrap();
